@@ -18,6 +18,7 @@
 #include <condition_variable>
 #include <dirent.h>
 #include <fstream>
+#include <ftw.h>
 #include <memory>
 #include <nlohmann/json.hpp>
 #include <sstream>
@@ -195,7 +196,8 @@ static void read_back() {
 static std::string scratch; static long execno = 0; static int nprefix = 0; static bool enabled = false;
 static int kctr[NT + 1]; static uint64_t tsctr = 0;
 
-static void rm_rf(const std::string &p) { std::string c = "rm -rf '" + p + "'"; int r = system(c.c_str()); (void)r; }
+static int rm_one(const char *p, const struct stat *, int, struct FTW *) { return ::remove(p); }
+static void rm_rf(const std::string &p) { nftw(p.c_str(), rm_one, 16, FTW_DEPTH | FTW_PHYS); }
 static void call_prefix(bool ok) {
     std::string p = ok ? scratch + "/x" + std::to_string(execno) + "/p" + std::to_string(++nprefix) : (nprefix % 2 ? std::string("  ") : scratch + "/x" + std::to_string(execno) + "/bad/");
     if (!ok) ++nprefix;
